@@ -13,6 +13,7 @@ THEMES = {
  "clauses": "(c) the breakage is REALISTIC - the kind of mistake a refactoring, an optimisation, a \"cleanup\", a dependency upgrade workaround or a feature addition could plausibly introduce - and it needs SOMETHING SPECIFIC TO MANIFEST (a particular interleaving, a fault at a particular point, a multi-step sequence, an unusual input or configuration, or two cooperating sites that each look fine alone); ordinary use must not expose it at once. FIRST split the property statement and the quantifier into their individual clauses (write the list into notes1.md under the heading 'Clauses'), mark which clauses the ALREADY KNOWN attacks hit, and aim your patches at clauses, entry points, formats, configurations or code paths that are NOT yet hit. The patches must use different mechanisms and touch different functions.",
  "everyday": "(c) the breakage is REALISTIC - the kind of mistake an everyday commit could plausibly introduce. Make patch 1 a FEATURE ADDITION or API CONVENIENCE with a flaw (a new option, a new accepted input form, a new helper used by the existing path, a new table or cache) and patch 2 a PERFORMANCE OPTIMISATION or ROBUSTNESS \"IMPROVEMENT\" with a flaw (a fast path, a reused buffer, a precomputed value, an early return, extra error handling, a changed default, a merged duplicate). Each must need SOMETHING SPECIFIC TO MANIFEST: a particular interleaving, a fault at a particular point, a multi-step sequence of operations, an unusual input or configuration, or two cooperating sites that each look fine alone. Do NOT make a change that ordinary use would expose at once. The two patches must use different mechanisms / touch different places.",
  "classic": "(c) the breakage is REALISTIC - the kind of mistake a refactoring, an optimisation, a \"cleanup\" or a feature addition could plausibly introduce - and it needs SOMETHING SPECIFIC TO MANIFEST: a particular interleaving, a fault at a particular point, a multi-step sequence of operations, an unusual input or configuration, or two cooperating sites that each look fine alone. Do NOT make a change that ordinary use would expose at once (e.g. do not just delete the main code path). Prefer changes deep in the logic (wrong condition in one branch, a missed case among siblings, state that is not reset, a changed constant, an altered order of two operations, a wrapper that adds/removes a frame, a table entry that disagrees with its sibling table, ...). The two patches must use different mechanisms / touch different places.",
+ "history": "(c) the breakage is REALISTIC and manifests only after a particular HISTORY or in a particular CONFIGURATION CORNER: a sequence of configuration calls (set, then reset/remove, then set again), a second use of a recycled object, a child created before vs after a change of its parent, registration followed by removal, a rarely used build-independent option combination, an argument list at the edge of what the quantifier allows (empty, one element, nil members, very long), a value kind nobody passes in the tests. A single fresh logger used once with ordinary arguments must behave exactly as before. Make the three patches differ in the kind of history/corner they need. Keep each change small (1-10 lines) and natural-looking,",
  "small": "(c) the breakage is REALISTIC and SMALL: a one-to-five-line slip of the kind code review misses - an off-by-one, `<` for `<=`, `&&` for `||`, the wrong one of two similar variables/fields/constants, a swapped argument pair, a missing `!`, a dropped `else`, a `break` for a `continue`, a copy-pasted sibling that was not adapted, a default that changed, a shadowed variable, a missing reset, a stale comment-driven \"fix\". It must still need SOMETHING SPECIFIC TO MANIFEST (an unusual input, configuration, sequence or interleaving) so that the existing tests stay green. The two patches must be in different functions and of different kinds.",
 }
 
